@@ -427,7 +427,9 @@ def _register_capabilities_hooks(converter: cattrs.Converter) -> cattrs.Converte
     def _code_action_hook(
         object_: Any, _: type
     ) -> Union[lsp_types.Command, lsp_types.CodeAction]:
-        if "command" in object_:
+        # Both alternatives may carry `command`: a string in Command, a nested
+        # Command object in CodeAction.
+        if isinstance(object_.get("command"), str):
             return converter.structure(object_, lsp_types.Command)
         else:
             return converter.structure(object_, lsp_types.CodeAction)
